@@ -63,6 +63,35 @@ package scen
 // choice and torn-down slot out of step (marker written but swap aborted, swap
 // done but marker rolled back, wrong slot torn down after a failed step).
 //
+// Abandoned operations (c20H.abandon): a caller may give up on an ordinary
+// operation - its context ends - while the worker is executing it. The
+// property quantifies over "every history of put/get/count/delete/empty/size
+// operations", and a history in which one caller stopped waiting is one of
+// them: "Put returns exactly ..., Get/CountKeysUpTo/ContainsPrefix ... reflect
+// exactly the stored keys ..., Size equals the number of stored keys, across
+// every history of operations, clean restarts and crashes" keeps binding every
+// LATER operation, the Close that a "clean restart" consists of, and the
+// reopen. No new rule is needed: the abandoned call itself may fail (a failed
+// read says nothing, c20Step), every later operation has to return and is
+// judged by lin-*; a store that stops answering is keystore-wedged, a Close
+// that does not come back is keystore-wedged (in the epoch) or close-hang (at a
+// crash). The generator cancels the context of a drawn operation (get / count /
+// contains, less often put / delete) at a scheduler step at which the worker is
+// parked inside one of that operation's datastore calls - the caller's select
+// then has the ended context as its only ready case, so the outcome is a
+// function of the schedule; the parked call and every later datastore call of
+// the operation observe the ended context (like every datastore call under a
+// cancelled context in this scenario; a commit that observes it applies
+// nothing), so whatever the abandoned write did to the store it did before
+// its caller returned. An abandoned put/delete returned an error: the model
+// and the reopen oracle treat it like any failed write ("may or may not have
+// happened": c20Step unk, c20Mut not mandatory).
+// Excluded: abandoning empty (it commits one batch after the other; once a
+// batch is committed and the context ends, the worker's recount runs on that
+// same ended context - reported separately as a suspected defect, not
+// generated here) and size (never reaches the datastore, so there is no step
+// "while the worker executes it").
+//
 // Schedules that would hit a select with two ready cases inside the keystore
 // (worker: requests vs. reset operations vs. close; withAltDs: token vs.
 // cancelled context) are not generated - see the gating comments below.
@@ -100,6 +129,9 @@ func init() {
 		"probe_crash_cut_inside_batch", "probe_crash_mid_operation", "probe_crash_during_close",
 		"probe_reopen_stale_size_key", "probe_put_returned_subset", "probe_long_prefix_query", "probe_concurrent_ops",
 		"probe_op_after_close",
+		// a caller gave up on an operation while the worker was executing it
+		"fault_op_abandoned", "probe_abandoned_op_returned", "probe_op_ok_after_abandoned_op", "probe_close_ok_after_abandoned_op",
+		"probe_abandon_while_closing", "probe_write_abandoned",
 	}
 	resetP := []string{
 		"fault_reset_cancel", "fault_close_during_reset",
@@ -113,6 +145,9 @@ func init() {
 		// (injected error in the fault variants, cancelled context in both)
 		"probe_crash_lost_marker_write", "probe_marker_sync_failed_then_marker_lost",
 		"probe_clean_reopen_after_failed_marker_sync", "probe_crash_reopen_marker_kept_after_failed_marker_sync",
+		// a client operation queued behind a reset cancelled before its start was
+		// acknowledged returned while the liveness probe was being served
+		"probe_op_returned_during_liveness_probe",
 	}
 	faultsF := []string{"fault_ds_error_has", "fault_ds_error_put", "fault_ds_error_query", "fault_ds_error_commit", "fault_ds_partial_commit", "fault_ds_error_sync", "probe_sync_failed_op_acknowledged", "probe_op_failed", "fault_boot_error", "probe_open_failed_on_injected_error"}
 	cat := func(a ...[]string) []string {
@@ -240,6 +275,7 @@ type c20H struct {
 	faultTags  map[string]int
 	stop       bool
 	noCensus   bool
+	nAbandoned int // operations abandoned by their caller in this epoch
 
 	nCrash, nClean, nResetOK, nResetFail, nAcked int
 }
@@ -253,6 +289,17 @@ func c20Park(op, key string) bool { return op != "batch" }
 // overlapping ResetCids calls off, "boot" the start-up faults.
 func c20Off(what string) bool {
 	for _, w := range strings.Split(os.Getenv("VERIF_C20_OFF"), ",") {
+		if w == what {
+			return true
+		}
+	}
+	return false
+}
+
+// c20On: development aid, the opposite of c20Off. VERIF_C20_ON=abandon-empty
+// lets callers abandon Empty as well (see the header, "Abandoned operations").
+func c20On(what string) bool {
+	for _, w := range strings.Split(os.Getenv("VERIF_C20_ON"), ",") {
 		if w == what {
 			return true
 		}
@@ -343,6 +390,7 @@ func (h *c20H) open(meta *simds.DS, slots map[string]*simds.DS) bool {
 	h.reset = nil
 	h.resetIdx = 0
 	h.stepsInEpoch = 0
+	h.nAbandoned = 0
 	for i := range h.busy {
 		h.busy[i] = nil
 	}
@@ -696,6 +744,26 @@ func (h *c20H) newClientOp(c int) *c20Op {
 	if len(o.prefix) > h.prefixBits && o.prefix != "" {
 		s.Count("probe_long_prefix_query")
 	}
+	switch o.kind {
+	case "get", "count", "contains":
+		o.abandon = s.Chance("abandon", 1, 4) && !c20Off("abandon")
+	case "put", "delete":
+		// less often: an abandoned write leaves its keys unknown to the model
+		// until the next read
+		o.abandon = s.Chance("abandon-write", 1, 8) && !c20Off("abandon")
+	case "empty":
+		// Abandoning Empty exposed a defect of the snapshot tree (the recount
+		// after the failed Empty ran on the caller's cancelled context and the
+		// size counter stayed stale: findings/C20-abandoned-empty-stale-size.json);
+		// repaired in /repo, so it is part of the generated space
+		// (VERIF_C20_OFF=abandon-empty switches it off).
+		// Only in the fault-free scenarios: with injected datastore errors the
+		// recount after the abandoned Empty can fail too, a combination the
+		// model does not track.
+		if !h.faults && !c20Off("abandon-empty") && !c20Off("abandon") {
+			o.abandon = s.Chance("abandon-write", 1, 2)
+		}
+	}
 	return o
 }
 
@@ -728,6 +796,9 @@ func (h *c20H) launch(o *c20Op) {
 	}
 	if o.kind == "overlap" {
 		rctx, o.cancel = context.WithCancel(ctx)
+	}
+	if o.abandon {
+		ctx, o.cancel = context.WithCancel(ctx)
 	}
 	go func() {
 		defer func() {
@@ -938,30 +1009,38 @@ func (h *c20H) observe() {
 			s.Violate("op-panic", "%s panicked on the caller's goroutine: %s", o, firstLine(o.panicked))
 		}
 	}
-	for c, o := range h.busy {
-		if o == nil || !o.done {
-			continue
-		}
-		finish(o)
-		h.busy[c] = nil
-		h.inflight--
-		if o.err == nil {
-			if o.kind == "put" || o.kind == "delete" || o.kind == "empty" {
-				h.nAcked++
+	collect := func() {
+		for c, o := range h.busy {
+			if o == nil || !o.done {
+				continue
 			}
-			if o.kind == "put" {
-				if o.outMask != o.mask {
-					s.Count("probe_put_returned_subset")
-				}
-				if h.resetActive() && h.reset.opStartDone {
-					s.Count("probe_put_during_reset")
-					h.reset.ackedPuts++
-				}
+			finish(o)
+			h.busy[c] = nil
+			h.inflight--
+			if o.abandoned {
+				s.Count("probe_abandoned_op_returned")
+			} else if h.nAbandoned > 0 && o.err == nil {
+				s.Count("probe_op_ok_after_abandoned_op")
 			}
-		} else if !o.closedErr() {
-			s.Count("probe_op_failed")
+			if o.err == nil {
+				if o.kind == "put" || o.kind == "delete" || o.kind == "empty" {
+					h.nAcked++
+				}
+				if o.kind == "put" {
+					if o.outMask != o.mask {
+						s.Count("probe_put_returned_subset")
+					}
+					if h.resetActive() && h.reset.opStartDone {
+						s.Count("probe_put_during_reset")
+						h.reset.ackedPuts++
+					}
+				}
+			} else if !o.closedErr() {
+				s.Count("probe_op_failed")
+			}
 		}
 	}
+	collect()
 	if r := h.reset; r != nil && r.op.started && !r.op.seen {
 		if r.op.done {
 			finish(r.op)
@@ -973,6 +1052,23 @@ func (h *c20H) observe() {
 					h.violateWedge()
 				}
 				h.wedgeSched = false
+				// The probe is served by the worker only after every client
+				// operation that was queued before it, and waiting for it
+				// (settle) releases their datastore calls: such an operation
+				// has RETURNED by now, and the probe's result reflects it
+				// (Size counts the keys of a put that was in flight when the
+				// reset returned). Record those returns now, at this quiescent
+				// point. Left to the next observe() they were lost when the
+				// epoch's planned crash was due at this very step: doCrash
+				// then took the finished put for an operation cut off by the
+				// crash and dropped it from the history, while the probe that
+				// had counted its keys stayed in (false lin-size / lin-delete,
+				// seed 7, about one run in 10^5).
+				before := h.inflight
+				collect()
+				if h.inflight < before {
+					s.Count("probe_op_returned_during_liveness_probe")
+				}
 			}
 			if r.op.err == nil {
 				h.nResetOK++
@@ -992,6 +1088,9 @@ func (h *c20H) observe() {
 	}
 	if c := h.inst.closeOp; c != nil && c.done && !c.seen {
 		finish(c)
+		if h.nAbandoned > 0 && c.err == nil {
+			s.Count("probe_close_ok_after_abandoned_op")
+		}
 	}
 }
 
@@ -1150,6 +1249,20 @@ func (h *c20H) actions(closing bool) []sim.Action {
 		p := p
 		acts = append(acts, sim.Action{ID: p.ID, Do: func() { h.releaseDS(p) }})
 	}
+	// The caller gives up while the worker is inside one of the operation's
+	// datastore calls (see the header: "Abandoned operations").
+	for c, o := range h.busy {
+		if o == nil || !o.abandon || o.abandoned || o.done {
+			continue
+		}
+		for _, p := range h.parkedOf(h.inst) {
+			if sim.TagOf(p.Ctx) == "@"+o.tag && !p.Cancelled() {
+				o := o
+				acts = append(acts, sim.Action{ID: fmt.Sprintf("abandon:c%d", c), Do: func() { h.abandon(o, closing) }})
+				break
+			}
+		}
+	}
 	active := h.resetActive()
 	// Client starts. While a reset runs at most one client operation is in
 	// flight, so that the worker's select never sees a blocked request sender
@@ -1209,6 +1322,27 @@ func (h *c20H) actions(closing bool) []sim.Action {
 		}
 	}
 	return acts
+}
+
+// abandon ends the context of a client operation one of whose datastore calls is parked:
+// the worker is in the middle of the operation, the caller's wait has the
+// ended context as its only ready case. Nothing is demanded of the abandoned
+// call; what follows it is judged by the ordinary rules.
+func (h *c20H) abandon(o *c20Op, closing bool) {
+	s := h.s
+	o.abandoned = true
+	h.nAbandoned++
+	s.Count("fault_op_abandoned")
+	if o.kind == "put" || o.kind == "delete" || o.kind == "empty" {
+		s.Count("probe_write_abandoned")
+	}
+	if closing {
+		s.Count("probe_abandon_while_closing")
+	}
+	s.Tracef("caller of %s gives up (context cancelled while the worker executes the operation)", o.tag)
+	o.cancel()
+	s.Quiesce()
+	s.State("abandon mode=%d kind=%s reset=%s closing=%v inflight=%d", h.mode, o.kind, h.resetPhase(), closing, min(h.inflight, 2))
 }
 
 func (h *c20H) releaseDS(p *sim.Parked) {
